@@ -45,5 +45,4 @@ def run(tier, seed, t0):
 
 
 def replay(path):
-    print("C10 cases are deterministic; re-run ./vcheck C10")
-    sys.exit(2)
+    vlib.replay_enum(PID, build(), path, env={"VERIF_DETECTOR": build_detector()})
